@@ -27,6 +27,7 @@ from io import BytesIO
 
 from .data_types import INT, DINT, REAL, StringDataType, UINT
 
+from ..exceptions import DataError
 from ..map import EnumMap
 
 
@@ -54,13 +55,19 @@ class PCCC_STRING(PCCCStringType):
     @classmethod
     def _encode(cls, value: str) -> bytes:
         _len = UINT.encode(len(value))
-        _data = cls._slc_string_swap(value.encode(cls.encoding))
-        return _len + _data
+        _data = value.encode(cls.encoding)
+        if len(_data) > 82:
+            raise DataError(f"String too long for a string element, {len(_data)} > 82")
+        # an element is always LEN + 82 characters, word-swapped and NUL padded
+        return _len + cls._slc_string_swap(_data.ljust(82, b"\x00"))
 
     @classmethod
     def _decode(cls, stream: BytesIO) -> str:
         _len = UINT.decode(stream)
-        return cls._slc_string_swap(stream.read(82)).decode(cls.encoding)
+        _data = cls._slc_string_swap(cls._stream_read(stream, 82))
+        if _len > 82:
+            raise DataError(f"Invalid string length {_len}")
+        return _data[:_len].decode(cls.encoding)
 
 
 class PCCCDataTypes(EnumMap):
